@@ -30,4 +30,7 @@ def next_channel_sites : List (String × Bool) := [
   ("_parse_channel_open", true)
 ]
 
+/-- the methods of class Transport that assign `self._channel_counter` -/
+def counter_writers : List String := ["__init__", "_next_channel"]
+
 end PV.Generated.C23
